@@ -189,15 +189,43 @@ class FuncAnalysis:
         return self.out
 
     # handlers: list of frames; frame = list of (names|None, handler node)
-    def guarded_by_caller(self, exc, via, recv, guards):
-        """KeyError from `self['K']` in a callee invoked on receiver R under
-        the fact 'K' in R at the call site."""
-        if exc != "KeyError" or via is None or recv is None:
+    def guarded_by_caller(self, exc, via, recv, guards, call=None, callee=None):
+        """KeyError from `self['K']` (or `<param>['K']`) in a callee invoked on
+        receiver R (with actual argument A) under the fact 'K' in R (in A) at
+        the call site."""
+        if exc != "KeyError" or via is None:
             return False
-        w = via.root().what
-        if "`self['" in w:
+        root = via.root()
+        w = root.what
+        if recv is not None and "`self['" in w:
             k = w.split("`self['", 1)[1].split("']", 1)[0]
-            return ("haskey", dump(recv), repr(k)) in guards
+            if ("haskey", dump(recv), repr(k)) in guards:
+                return True
+        # `<param>['K']` raised directly in the callee: bind the actual argument
+        if call is not None and callee is not None and root.func is callee \
+                and isinstance(root.node, ast.Subscript) and isinstance(root.node.value, ast.Name) \
+                and isinstance(root.node.slice, ast.Constant):
+            pname = root.node.value.id
+            params = [a.arg for a in callee.node.args.posonlyargs + callee.node.args.args]
+            if pname in params:
+                # the parameter must not be rebound in the callee
+                if any(isinstance(n, ast.Name) and n.id == pname and isinstance(n.ctx, ast.Store)
+                       for n in ast.walk(callee.node)):
+                    return False
+                i = params.index(pname)
+                off = 1 if (callee.cls is not None and callee.kind in ("instance", "class")
+                            and isinstance(call.func, ast.Attribute)) else 0
+                actual = None
+                if i - off >= 0 and i - off < len(call.args):
+                    actual = call.args[i - off]
+                for kw in call.keywords:
+                    if kw.arg == pname:
+                        actual = kw.value
+                if i == 0 and off == 1 and callee.kind == "instance":
+                    actual = call.func.value
+                if actual is not None and \
+                        ("haskey", dump(actual), repr(root.node.slice.value)) in guards:
+                    return True
         return False
 
     def emit(self, exc, node, what, handlers, via=None):
@@ -525,7 +553,7 @@ class FuncAnalysis:
             for g in site.callees:
                 for exc, os_ in self.eff.callee_summary(g).items():
                     for o in os_.values():
-                        if self.guarded_by_caller(exc, o, recv, guards):
+                        if self.guarded_by_caller(exc, o, recv, guards, call=e, callee=g):
                             continue
                         self.emit(exc, e, f"call {g.qualname}", handlers, via=o)
             return
